@@ -22,6 +22,10 @@ func (g *G) Bool(label string) bool          { return rapid.Bool().Draw(g.T, lab
 // Chance is true with probability pct/100.
 func (g *G) Chance(pct int, label string) bool { return g.Int(0, 99, label) < pct }
 
+func (g *G) PickArgs(xs [][]string, label string) []string {
+	return xs[rapid.IntRange(0, len(xs)-1).Draw(g.T, label)]
+}
+
 func (g *G) Pick(xs []string, label string) string {
 	return xs[rapid.IntRange(0, len(xs)-1).Draw(g.T, label)]
 }
